@@ -10,7 +10,7 @@ pub struct ContractStats {
 }
 
 /// Checks rules (1)-(4) of C14 for transport `tr`, owned by task `owner`.
-pub fn check_contract(recs: &[Rec], tr: u8, owner: usize, independent: bool) -> Result<ContractStats, String> {
+pub fn check_contract(recs: &[Rec], tr: u8, owner: usize, independent: bool, is_server: bool) -> Result<ContractStats, String> {
     let mut ready_credit = false;
     let mut closed_called = false;
     let mut failed: Option<&'static str> = None;
@@ -33,6 +33,12 @@ pub fn check_contract(recs: &[Rec], tr: u8, owner: usize, independent: bool) -> 
                 if out == "Pending" && unflushed > 0 && !flush_in_progress && failed.is_none() && !connection_over {
                     return Err(format!(
                         "seq {}: the endpoint went idle (returned Pending) with {unflushed} written item(s) not flushed and no flush in progress",
+                        r.seq
+                    ));
+                }
+                if out == "Ready" && unflushed > 0 && failed.is_none() && !connection_over && !independent {
+                    return Err(format!(
+                        "seq {}: the endpoint finished with {unflushed} written item(s) never flushed",
                         r.seq
                     ));
                 }
@@ -112,7 +118,9 @@ pub fn check_contract(recs: &[Rec], tr: u8, owner: usize, independent: bool) -> 
                     }
                     IoOp::Next => match res {
                         IoRes::Item(_) => streak = 0,
-                        IoRes::ItemErr | IoRes::End => connection_over = true,
+                        IoRes::ItemErr => connection_over = true,
+                        // the peer closing its side ends a client's connection; a server must still flush its responses
+                        IoRes::End if !is_server => connection_over = true,
                         _ => {}
                     },
                 }
